@@ -64,9 +64,11 @@ func (proxy *multicastProxy) AddMember(m io.Closer) {
 		}
 
 		proxy.source = stream
+		// before StartConsume: it starts the delivery goroutine, and on a second start/stop cycle
+		// closed is still true from close() - Consume would drop the replayed packets
+		proxy.closed = false
 		proxy.cid = stream.StartConsume(proxy, media.RTPPacket,
 			"net = rtsp-multicast, "+proxy.multicastIP)
-		proxy.closed = false
 
 		proxy.logger.Info("multicast proxy started.")
 	}
